@@ -122,7 +122,7 @@ func c20Test(c *Ctx) *RuleResult {
 }
 
 func c20TestThenSet(c *Ctx) *RuleResult {
-	r := &RuleResult{Rule: "C20.test-then-set", Floor: 3,
+	r := &RuleResult{Rule: "C20.test-then-set", Floor: 2,
 		Doc: "a byte-range lock is only entered into the table (ByteRangeLockSet.Set with a locking type) when Test returned no conflict for that same lock value, inside one locksLock critical section; Unlock/UnlockAll enter only 'unlocked' ranges; UnlockAll spans [0, the same end-of-file constant that offset/length conversion uses]"}
 	p := c.P
 	units := p.UnitsIn(nfsPkg)
